@@ -9,6 +9,7 @@
 #include <sstream>
 #include <string>
 #include <vector>
+#include <chrono>
 
 namespace vf {
 
@@ -105,8 +106,17 @@ struct Report {
 
   // sharding: cells are numbered in enumeration order; this process handles idx % n == i.
   // With --replay, only the cell whose key matches is run.
+  // A global deadline (thorough tier) stops the enumeration: the remaining cells are skipped, the run is reported as not
+  // exhaustive and still exits 0 -- a cap is reported as a cap.
+  std::chrono::steady_clock::time_point t_start = std::chrono::steady_clock::now();
+  bool deadline_hit = false;
   bool mine() {
     long k = cell_index++;
+    if (args.deadline_s > 0 && !deadline_hit && (k & 15) == 0) {
+      double el = std::chrono::duration<double>(std::chrono::steady_clock::now() - t_start).count();
+      if (el > args.deadline_s) { deadline_hit = true; exhaustive = false; notes.push_back("deadline of " + std::to_string((long)args.deadline_s) + " s reached at cell " + std::to_string(k) + ": remaining cells skipped"); }
+    }
+    if (deadline_hit) { ++skipped; return false; }
     return (k % args.shard_n) == args.shard_i;
   }
 
